@@ -850,6 +850,17 @@ func gamma_p_derivative_imp(a, x float64) float64 {
 }
 
 func gamma_p_second_derivative_imp(a, x float64) float64 {
+  if x == 0.0 && a > 0.0 {
+    // limit of x^(a-2) exp(-x) (a-1-x) / Gamma(a) at zero, the general
+    // formula below evaluates 0/0
+    switch {
+    case a == 1.0: return -1.0
+    case a == 2.0: return  1.0
+    case a  > 2.0: return  0.0
+    case a  > 1.0: return math.Inf( 1)
+    default      : return math.Inf(-1)
+    }
+  }
   t := gamma_p_derivative_imp(a, x)
   if t < 0x1p-1022 && x > 0.0 && x < 1.0 {
     // The first derivative is subnormal or underflows, t*(a-1-x)/x need not:
